@@ -226,7 +226,7 @@ func ExpressionPrecedence(expr ExpressionNode) uint8 {
 		*ReceiverlessMethodCallNode, *NilSafeSubscriptExpressionNode,
 		*SubscriptExpressionNode, *CallNode, *AttributeAccessNode,
 		*GenericMethodCallNode, *MethodCallNode,
-		*MacroCallNode, *ReceiverlessMacroCallNode:
+		*MacroCallNode, *ReceiverlessMacroCallNode, *ScopedMacroCallNode:
 		return 210
 	case *ConstructorCallNode, *GenericConstructorCallNode:
 		return 220
@@ -267,7 +267,7 @@ func TypePrecedence(expr TypeNode) uint8 {
 		case token.SLASH:
 			return 40
 		}
-	case *NotTypeNode, *SingletonTypeNode, *InstanceOfTypeNode:
+	case *NotTypeNode, *SingletonTypeNode, *InstanceOfTypeNode, *BoxTypeNode:
 		return 50
 	case *NilableTypeNode:
 		return 60
